@@ -24,7 +24,7 @@ prop("C01", "other",
 prop("C10", "other",
      "safe@op obligations (no exception other than those the contract allows) of every function under contract, discharged for all inputs; "
      "bounded: extreme-value pool through the whole pipeline.",
-     bounded=[B.c10_pipeline])
+     bounded=[B.c10_pipeline, B.c10_documents])
 
 prop("C07", "other",
      "Default/description clauses of the parser under contract (deductive) where within PyVC's reach; the end-to-end statement "
@@ -80,5 +80,33 @@ prop("C12", "other",
      "each generated module is executed.",
      bounded=[B3.c12_names, B3.c12_siblings, B3.c12_titles])
 
+prop("C17", "other",
+     "__eq__ contracts (Element, _Property) where in reach; bounded: all pairs of element variants one keyword/literal/property attribute/class apart: "
+     "reflexive, symmetric, copies equal, == implies same verdicts and same JSON serialisation.",
+     bounded=[B3.c17_equality])
+
+prop("C18", "other",
+     "custom_repr_args contract at the Args level where in reach; the step `eval(repr(x))` is text and is covered by bounded enumeration only.",
+     bounded=[B3.c18_repr])
+
+prop("C19", "other",
+     "annotation functions under contract at the type-term level where in reach; bounded: the annotation *text* is parsed into a type term and the runtime attribute "
+     "values of built models are checked against it.",
+     bounded=[B3.c19_annotations])
+
+prop("C02", "other",
+     "Structured sub-obligations (declaration order via C11's contracts, dedupe, imports, class header) where in reach; the deciding tail -- CPython executes the generated text -- "
+     "is bounded: documents through the real CLI entry point, module executed, classes and verdicts compared.",
+     bounded=[B3.c02_generated, B3.c12_titles])
+
+prop("C03", "other",
+     "_serialize_element/serialize_json contracts where in reach; bounded: DSL trees (shared classes, several roots, caller definitions, class extended after a first serialisation) "
+     "x values against an independent Draft-6 oracle evaluating the serialised document with its $refs.",
+     bounded=[B3.c03_json])
+
+prop("C06", "other",
+     "Round-trip lemma over parser/serialiser contracts is not within reach of the discharged obligations yet; bounded: JSON round trip (twice) and executed Python source on the schema enumeration.",
+     bounded=[B3.c06_roundtrip])
+
 NOT_YET = {}
-FIX_COMMITS = ["240c9e2", "ba1006d", "dab453b", "5a0ad53", "5fe75a7", "1c7b42d", "0339f31", "a857da5", "9e872e5", "85d1ad8", "757eca2", "d1e41a0", "8960798", "e3fd882"]
+FIX_COMMITS = ["240c9e2", "ba1006d", "dab453b", "5a0ad53", "5fe75a7", "1c7b42d", "0339f31", "a857da5", "9e872e5", "85d1ad8", "757eca2", "d1e41a0", "8960798", "e3fd882", "13caeae", "2f55341", "9fbbe28", "f7d2b94"]
